@@ -6,5 +6,6 @@ pub mod core;
 pub mod corekit;
 pub mod env;
 pub mod sim;
+pub mod stubs;
 
 pub use crate::core::*;
